@@ -7,7 +7,7 @@ From Coq Require Import List Arith Lia ZArith QArith Qcanon.
 From GB Require Import Base.Field Base.FNum Base.Tables Model.Shell Model.MomentInt Model.Overlap Model.OneBody
   Proofs.CoreSumP Proofs.CoreBlockP Proofs.CoreDiffP Proofs.CoreExamplesP
   Proofs.BlockMatP Proofs.AssembledP Proofs.AssembledOverlapP Proofs.AssembledHermP
-  Proofs.AssembledSphP Proofs.AssembledSphOverlapP Proofs.AssembledSphHermP.
+  Proofs.AssembledSphP Proofs.AssembledSphOverlapP Proofs.AssembledSphHermP Proofs.AssembledLincombP.
 Import ListNotations.
 Local Open Scope nat_scope.
 
@@ -135,5 +135,22 @@ Proof.
              ex_mixed ex_mixed_seg ex_mixed_wf ex_mixed_exps); rewrite E1; lia.
   - apply (angmom_integral_herm_mixed KQ' (KQ_field _ _ _ _ _) (KQ_apx _ _ _ _ _) (KQ_two _ _ _ _ _)
              ex_mixed ex_mixed_seg ex_mixed_wf ex_mixed_exps); rewrite E1; lia.
+Qed.
+
+(* a rectangular transformation (2 x 14) of the mixed basis: Hermiticity of the transformed momentum matrix *)
+Definition ex_T : list (list Qc) := mk 2 (fun a => mk 14 (fun l => q (Z.of_nat (a + 2 * l)) 3)).
+
+Lemma ex_T_shape : mat_shape 2 (ototal KQ' ex_mixed) ex_T.
+Proof.
+  destruct mixed_hypotheses_satisfiable as (_ & _ & _ & E1 & _). rewrite E1.
+  split; [reflexivity|]. repeat constructor.
+Qed.
+
+Example momentum_herm_T_ex :
+  nth 0 (nth 1 (momentum_integral_re KQ' ex_mixed (Some ex_T)) []) []
+  = vneg KQ' (nth 1 (nth 0 (momentum_integral_re KQ' ex_mixed (Some ex_T)) []) []).
+Proof.
+  apply (momentum_integral_herm_T KQ' (KQ_field _ _ _ _ _) (KQ_apx _ _ _ _ _) (KQ_two _ _ _ _ _)
+           ex_mixed ex_mixed_seg ex_mixed_wf ex_mixed_exps ltac:(cbn; lia) ex_T 2 ex_T_shape); lia.
 Qed.
 End Ex.
